@@ -323,6 +323,10 @@ package atree
 //@   ensures[C18] err != nil ==> e.elems == old(e.elems) && e.size == old(e.size)
 //@   ensures err == nil ==> e.level == old(e.level)
 //@   ensures[C18] err != nil ==> categorised(err)
+//@   # the list reports prefix + the sizes its elements report; an element whose value was replaced reports its new size (C06)
+//@   ensures[C06] err == nil && (exists j :: 0 <= j && j < len(old(e.elems)) && keq(key, old(e.elems)[j].key)) ==> e.size == 6 + sum(ssz, e.elems, len(e.elems))
+//@   ensures[C06] err == nil ==> (forall j :: 0 <= j && j < len(old(e.elems)) && keq(key, old(e.elems)[j].key) && (forall i :: 0 <= i && i < j ==> !keq(key, old(e.elems)[i].key)) ==>
+//@        e.elems[j].size == 1 + bs(e.elems[j].key) + bs(e.elems[j].value))
 //@   modifies e.elems, e.size, singleElement.value, singleElement.size, ghost.sto, ghost.issued, ghost.stored, ghost.touched, alloc,
 //@        as(valueRoot(key), *ArrayDataSlab).header, as(valueRoot(key), *ArrayDataSlab).inlined, as(valueRoot(key), *MapDataSlab).header, as(valueRoot(key), *MapDataSlab).inlined,
 //@        as(valueRoot(value), *ArrayDataSlab).header, as(valueRoot(value), *ArrayDataSlab).inlined, as(valueRoot(value), *MapDataSlab).header, as(valueRoot(value), *MapDataSlab).inlined
